@@ -221,8 +221,15 @@ class StackModel(object):
             return V([b[1], arg])
         if k == "raisearg":
             return E(b[1], [name, origin(arg)])
+        if k == "raiseif":
+            org = origin(arg)
+            if org is not None and org[1] == b[1]:
+                return self._fn(["raisearg", b[2]], name, arg)
+            return self._fn(b[3], name, arg)
         if k == "retexc":
             return V(arg)
+        if k == "reraise":
+            return E(arg[1], arg[2])  # the very same exception again
         if k == "ret":
             return V(b[1])
         if k == "compose":
